@@ -9,7 +9,8 @@ ID = "C18"
 LEVEL = "exploration"
 LETTERS = (0.0, 1.0, 2.0, 5.0)
 CLIPS = [("none", None, None), ("min", 1.0, None), ("max", None, 2.0), ("both", 1.0, 2.0),
-         ("nonbinding", -1.0, 9.0), ("collapsing", 7.0, 8.0), ("minfrac", 0.5, None)]
+         ("nonbinding", -1.0, 9.0), ("collapsing", 7.0, 8.0), ("minfrac", 0.5, None),
+         ("zero-min", 0.0, None), ("zero-both", 0.0, 2.0), ("zero-max", -1.0, 0.0)]
 
 
 def value_arrays(maxlen):
@@ -161,7 +162,40 @@ def helper_case(case):
   return None
 
 
+def work_distinct(ctx, item):
+  """Second family: ALL subsets of {0..7} (or {0..9}) as distinct sorted values, one value carrying a
+  heavy weight at every position (quantiles pile up on it), num_keypoints 2..#values."""
+  top = item["top"]
+  total = nontriv = 0
+  for mask in range(1, 1 << top):
+    vals = np.array([v for v in range(top) if mask >> v & 1], dtype=np.float64)
+    if len(vals) < 3 or (mask % item["stride"]) != item["phase"]:
+      continue
+    for heavy in range(len(vals)):
+      for hw in (20.0, 3.0):
+        w = np.ones(len(vals)); w[heavy] = hw
+        for nk in range(2, len(vals) + 1):
+          for mode in ("quantiles",):
+            for wv in (w, None) if heavy == 0 and hw == 20.0 else (w,):
+              r, err = call(vals, nk, mode, None, None, None, wv, "mean")
+              total += 1; nontriv += 1
+              j = judge(vals, nk, mode, None, None, None, wv, "mean", r, err)
+              if j is None and r is not None:
+                e = pwl_accepts(r) if total % 7 == 0 else None
+                if e:
+                  j = ("pwl-rejects", "PWLCalibration rejects %s: %s" % (np.asarray(r).tolist(), e))
+              if j:
+                ctx.violation(dict(violated=j[0], mode=mode, weighted="heavy" if wv is not None else "none",
+                                   clip="none", has_default=0, family="distinct"),
+                              dict(values=vals.tolist(), weights=None if wv is None else wv.tolist(), nk=nk,
+                                   mode=mode, clip_min=None, clip_max=None, default=None, reduction="mean"), j[1])
+  ctx.add(evaluations=total, nontrivial=nontriv, traces=total)
+  ctx.tab("distinct_value_family", "subsets_of_%d" % top, total)
+
+
 def work(ctx, item):
+  if item.get("family") == "distinct":
+    return work_distinct(ctx, item)
   n, first = item["n"], item["first"]
   total = nontriv = accepted = 0
   pwl_checked = set()
@@ -212,6 +246,8 @@ def work(ctx, item):
 def run(ctx):
   maxlen = 5 if ctx.quick else 6
   items = [dict(n=n, first=f) for n in range(1, maxlen + 1) for f in LETTERS]
+  top = 8 if ctx.quick else 10
+  items += [dict(family="distinct", top=top, stride=8, phase=p) for p in range(8)]
   items = alpha.rotate(items, ctx.seed)
   ctx.rule = (
       "ALL value arrays of length 1..%d over {0,1,2,5} x weights {None, ones, all non-constant words "
